@@ -331,7 +331,9 @@ func (fr *Frame) evalSpec(e SExpr, ctx *specCtx) SV {
 			binders = append(binders, "("+name+" "+g.specSort(t, fr.ctxPkg(ctx))+")")
 			c = c.withBound(v.Name, g.specSV(name, t, fr.ctxPkg(ctx)))
 		}
+		g.noHoist++
 		body := fr.evalBool(x.Body, c)
+		g.noHoist--
 		q := "exists"
 		if x.Forall {
 			q = "forall"
@@ -1000,6 +1002,11 @@ func (fr *Frame) evalCall(x *SCall, ctx *specCtx) SV {
 	if tn, ok := types.Universe.Lookup(x.Fun).(*types.TypeName); ok && x.Fun != "error" {
 		return fr.specConv(tn.Type(), x, ctx)
 	}
+	if p := fr.pkgFor(ctx); p != nil {
+		if _, ok := p.Scope().Lookup(x.Fun).(*types.Func); ok && g.P.specs.Pures[p.Name()+"."+x.Fun] == nil {
+			return fr.specGoCall(p.Name()+"."+x.Fun, x, ctx)
+		}
+	}
 	// user pure function
 	pkg := fr.ctxPkg(ctx)
 	pf := g.P.specs.Pures[pkg+"."+x.Fun]
@@ -1062,7 +1069,7 @@ func (fr *Frame) evalCall(x *SCall, ctx *specCtx) SV {
 		return r
 	}
 	name := g.declarePure(pf)
-	if pf.Opaque && ctx.st != nil && g.entry != nil {
+	if g.pureHeap[pf.Pkg+"."+pf.Name] && ctx.st != nil && g.entry != nil {
 		if d := ctx.st.heap.dirty; d != "" && d != "false" {
 			// the function is defined over the entry heap: its use here is only meaningful if the heap is unchanged
 			g.oblige("heapframe", pf.Name, ctx.st.path, not(d), "opaque specification function "+pf.Name+" is used where the heap must still equal the entry heap")
@@ -1103,6 +1110,37 @@ func (fr *Frame) specConv(tt types.Type, x *SCall, ctx *specCtx) SV {
 	return SV{}
 }
 
+// specGoCall: a side-effect free library function used inside a specification, evaluated by inlining its body.
+func (fr *Frame) specGoCall(key string, x *SCall, ctx *specCtx) SV {
+	g := fr.g
+	fn := g.P.funcs[key]
+	if fn == nil || !g.inlinable(fn, fr) {
+		fail("spec: function %s cannot be used in a specification (not inlinable)", key)
+	}
+	var args []Val
+	for i, a := range x.Args {
+		v := fr.evalSpec(a, ctx)
+		pt := fn.Signature.Params().At(i).Type()
+		if isIface(pt) && v.T != nil && !isIface(v.T) {
+			args = append(args, Val{T: pt, S: g.S.box(v.T, v.Term)})
+		} else if v.K == svMath {
+			args = append(args, Val{T: pt, S: g.fromMath(v.Term, pt)})
+		} else {
+			args = append(args, Val{T: pt, S: v.Term, A: v.A})
+		}
+	}
+	tmp := &State{cells: map[*Cell]string{}, heap: ctx.st.heap.clone(), path: "true"}
+	save := fr.nopanic
+	fr.nopanic = false
+	defer func() { fr.nopanic = save }()
+	sig := fn.Signature
+	var resT types.Type = sig.Results()
+	if sig.Results().Len() == 1 {
+		resT = sig.Results().At(0).Type()
+	}
+	return goSV(fr.inline(tmp, fn, args, nil, resT))
+}
+
 func (fr *Frame) evalMethodCall(x *SCall, ctx *specCtx) SV {
 	g := fr.g
 	if id, ok := x.Recv.(*SIdent); ok {
@@ -1110,6 +1148,9 @@ func (fr *Frame) evalMethodCall(x *SCall, ctx *specCtx) SV {
 			if p := g.lookupPkg(id.Name, fr.pkgFor(ctx)); p != nil {
 				if tn, ok := p.Scope().Lookup(x.Fun).(*types.TypeName); ok {
 					return fr.specConv(tn.Type(), x, ctx)
+				}
+				if _, ok := p.Scope().Lookup(x.Fun).(*types.Func); ok {
+					return fr.specGoCall(p.Name()+"."+x.Fun, x, ctx)
 				}
 			}
 		}
@@ -1213,8 +1254,13 @@ func (g *Gen) declarePure(pf *PureFunc) string {
 		ctx.bound[p.Name] = g.specSV(pn, p.T, pf.Pkg)
 	}
 	ret := g.specSort(pf.Ret, pf.Pkg)
+	if len(pf.Params) > 0 {
+		g.noHoist++
+		defer func() { g.noHoist-- }()
+	}
 	if pf.Body == nil {
 		g.pureDecls = append(g.pureDecls, fmt.Sprintf("(declare-fun %s (%s) %s)", name, strings.Join(sorts, " "), ret))
+		g.emitAxiomsFor(pf)
 		return name
 	}
 	if pf.Opaque {
@@ -1254,11 +1300,15 @@ func (g *Gen) declarePure(pf *PureFunc) string {
 		}
 		// the axiom refers to entry-heap constants declared in the script body: emit it there
 		g.emit(fmt.Sprintf("(assert (forall (%s) (! (= %s %s)%s)))", strings.Join(binders, " "), app, body, pats))
-		g.note("opaque specification function " + pf.Name + " is defined over the entry heap (used in invariants only)")
+		if reHeapConst.MatchString(body) {
+			g.pureHeap[key] = true
+			g.note("opaque specification function " + pf.Name + " is defined over the entry heap; each use carries a heap-unchanged obligation")
+		}
+		g.emitAxiomsFor(pf)
 		return name
 	}
 	if specCalls(pf.Body, pf.Name) {
-		// recursive: uninterpreted + defining axiom
+		// recursive: uninterpreted + defining axiom (the body may read the entry heap, so the axiom lives in the script body)
 		g.pureDecls = append(g.pureDecls, fmt.Sprintf("(declare-fun %s (%s) %s)", name, strings.Join(sorts, " "), ret))
 		body := g.coerce(fr.evalSpec(pf.Body, ctx), pf.Ret, pf.Pkg)
 		var anames []string
@@ -1266,7 +1316,12 @@ func (g *Gen) declarePure(pf *PureFunc) string {
 			anames = append(anames, "a_"+p.Name)
 		}
 		app := "(" + name + " " + strings.Join(anames, " ") + ")"
-		g.pureDecls = append(g.pureDecls, fmt.Sprintf("(assert (forall (%s) (! (= %s %s) :pattern (%s))))", strings.Join(binders, " "), app, body, app))
+		g.emit(fmt.Sprintf("(assert (forall (%s) (! (= %s %s) :pattern (%s))))", strings.Join(binders, " "), app, body, app))
+		if reHeapConst.MatchString(body) {
+			g.pureHeap[key] = true
+			g.note("recursive specification function " + pf.Name + " is defined over the entry heap")
+		}
+		g.emitAxiomsFor(pf)
 		return name
 	}
 	// the body may emit helper lines (string constants...) into g.lines; those are global declarations, fine.
@@ -1397,3 +1452,21 @@ func goodPattern(t string) bool {
 	return true
 }
 
+
+var reHeapConst = regexp.MustCompile(`\bh\d+_|\bhm_\d+|\bhe_\d+|\bhf_\d+|\bhp_\d+|\blhp_\d+`)
+
+// emitAxiomsFor emits (once) every user axiom that mentions the given specification function.
+// Axioms are trusted statements (listed in the evidence); they are evaluated on the entry heap.
+func (g *Gen) emitAxiomsFor(pf *PureFunc) {
+	for _, ax := range g.P.specs.Axioms {
+		if g.axiomDone[ax.Name] || !specCalls(ax.Expr, pf.Name) {
+			continue
+		}
+		g.axiomDone[ax.Name] = true
+		fr := g.newFrame(nil, 0)
+		ctx := &specCtx{fr: fr, kind: ctxPure, pkg: ax.Pkg, bound: map[string]SV{}, st: g.pureState()}
+		t := fr.evalBool(ax.Expr, ctx)
+		g.emit("(assert " + t + ")")
+		g.note("trusted axiom " + ax.Pkg + "." + ax.Name + ": " + ax.Text)
+	}
+}
